@@ -212,7 +212,8 @@ def tree_plan(prop, quick, thorough, rule, assumptions=()):
     PLANS[prop] = dict(run=run, search=search, replay=s_treeprops.replay(prop), replay_kind='tree', rule=rule, assumptions=list(assumptions))
 
 
-TREE_ASSUME = ["pathspec (gitwildmatch) is an oracle: exclusion bits are obtained by calling pathspec with exactly the strings CMinx builds",
+TREE_ASSUME = ["the walk model takes the exclusion predicate as a parameter: its bits are obtained by calling pathspec with exactly the strings CMinx builds; "
+               "pathspec's gitwildmatch translation itself is modelled in Glob.lean (range notation excepted) and compared with pathspec in the C15 check",
                "os.walk/scandir/makedirs/open and the file system are trusted; listing orders are imposed through a harness-side os.walk wrapper",
                "the Lean FsNode has no link constructor: symbolic links are resolved by the harness before the model sees the tree (a link to a "
                "regular file = that file; a link to a directory = that directory when input.follow_symlinks is on, absent otherwise); the real "
@@ -226,7 +227,10 @@ tree_plan('C14', 150, 4000, "as C13 with the closure profile (pattern-excluded, 
           "alias suite: the same trees with followed links between their own directories (siblings and cousins, several links to one target, "
           "never to an ancestor)", TREE_ASSUME)
 tree_plan('C15', 100, 2500, "random trees x pattern sets (bare names, trailing slash, *, **, absolute paths, negation, several patterns hitting adjacent "
-          "siblings or every CMake file of a directory) x 4 listing orders each; non-trivial = patterns present and at least 2 files written", TREE_ASSUME)
+          "siblings or every CMake file of a directory) x 4 listing orders each; non-trivial = patterns present and at least 2 files written; "
+          "glob suite: Glob.lean (the model the C15G theorems are about) against pathspec on random pattern lists x path strings, and on every "
+          "(string, answer) pair observed at PathSpec.match_file during real cminx.document() runs, with the model's queryPath/exclOf for that entry; "
+          "command-line suite: patterns spread over -e, the -s file and the user file, started from working directories in which the names exist", TREE_ASSUME)
 tree_plan('C12', 150, 4000, "random trees and lone files x prefixes x separators (. / :: -) x both extension options x custom header lists x input spelled "
           "absolute/relative/'.'; module doccomments named and unnamed; non-trivial = at least 2 files written", TREE_ASSUME)
 tree_plan('C18', 120, 3000, "random trees and lone files with output absolute / relative / nested in the input / pre-populated / absent (stdout), sandbox "
